@@ -106,7 +106,7 @@ def fnHeader (fn : Function) : (ts : List Lexem) → FnHdr ts
   | [] => .args false (Rest.refl _)
   | .open_ :: r => .args false ⟨r, by simp⟩
   | .copen :: r => .args true ⟨r, by simp⟩
-  | t :: r => if fn.isBoolean then .ret (.ok (.func0 false fn)) ⟨r, by simp⟩
+  | t :: r => if fn.isBoolean then .ret (.ok (.func0 false fn)) ⟨t :: r, Nat.le_refl _⟩   -- D84 fix: the lexem is put back
               else if fn.takesNoArguments then .ret (.ok (.func0 false fn)) ⟨t :: r, Nat.le_refl _⟩   -- D31 fix: the lexem is put back
               else .ret (.error (.msg "Error in function expression")) ⟨r, by simp⟩
 
